@@ -36,8 +36,8 @@ var boundedByProp = map[string][]boundedSpec{
 	"C07": {
 		{ID: "asm-diff", Name: "asm-vs-go differential (default build: assembly kernels)", File: "c07_diff_test.go.txt", Run: "TestVerifBoundedC07$", Marker: "C07DIFF",
 			Bounds: "vector lengths 0..9; words from a 20-element edge set (all combinations up to length 2, pseudo-random selections above, plus uniform words); shifts 0..18 (decimal) and 0..63 (binary); z==x, z==y and the overlapping shift layouts; canary words around the destination",
-			Stands: []string{"add10VV", "sub10VV", "add10VW", "sub10VW", "shl10VU", "shr10VU", "mulAdd10VWW", "addMul10VVW", "div10VWW", "mul10WW", "div10W", "div10WW",
-				"addVV", "subVV", "addVW", "subVW", "shlVU", "shrVU", "mulAddVWW", "addMulVVW", "divWVW", "mulWW", "divWW"},
+			Stands: []string{"math/big kernels of arith_amd64.s that the package does not call and that are not under contract: addVV, subVV, addVW, subVW, shlVU, shrVU, mulAddVWW, addMulVVW, mulWW, divWW",
+				"redundant cross-check (these are proved, assembly and Go twin): add10VV, sub10VV, add10VW, sub10VW, shl10VU, shr10VU, mulAdd10VWW, addMul10VVW, div10VWW, mul10WW, div10W, div10WW, divWVW"},
 			Env: map[string][2]string{"VERIF_C07_COUNT": {"300", "6000"}}, Timeout: "600s"},
 		{ID: "wrapper-diff", Name: "wrapper check (decimal_pure_go, math_big_pure_go build: kernels are the Go wrappers)", File: "c07_diff_test.go.txt", Run: "TestVerifBoundedC07$", Marker: "C07DIFF",
 			Bounds: "same family, smaller count", Stands: []string{"pure-Go wrappers in dec_arith_decl_pure.go / arith_decl_pure.go"},
@@ -47,7 +47,7 @@ var boundedByProp = map[string][]boundedSpec{
 
 var c06Spec = boundedSpec{ID: "mul-sqr-div-exec", Name: "executed contracts of dec.mul, dec.sqr, dec.div against math/big", File: "c06_exec_test.go.txt", Run: "TestVerifBoundedC06$", Marker: "C06EXEC",
 	Bounds: "operand lengths 1..260 words (30 sizes around every threshold; division with 1..230-word divisors so that divBasic and divRecursive both run), six word patterns (all nines, zeros under a top word, alternating, edge words, mixed, uniform), threshold tunings {default, (2,1,2), (3,2,4), (4,3,7), (8,4,8), (40,20,40)} for sizes <= 130, remainders {0, v-1, small, random}, stale and aliased destinations",
-	Stands: []string{"dec.mul (assumed value clause)", "dec.sqr (assumed value clause)", "dec.div (assumed value clause)"},
+	Stands: []string{"dec.mul (assumed value clause)", "dec.sqr (assumed value clause)", "dec.divLarge (assumed value clause; reached through the verified dec.div)"},
 	Env: map[string][2]string{"VERIF_C06_REPS": {"3", "40"}}, Timeout: "1500s"}
 
 var c05Spec = boundedSpec{ID: "sqrt-rounding", Name: "executed rounding clause of Sqrt against an exact integer oracle", File: "c05_sqrt_test.go.txt", Run: "TestVerifBoundedC05$", Marker: "C05SQRT",
